@@ -798,6 +798,9 @@ def srz_oracle(num, den):
     def f(out, bld):
         if out in ('panic', 'crash'):
             return 'sqrt_ratio_zeta panicked'
+        if out == 'bad-op':
+            # both arguments are canonical field elements: the harness parses them with from_bytes_checked
+            return 'a canonical field element was rejected by from_bytes_checked (the harness could not parse an argument)'
         fl, y = out.split(' ')
         y = int.from_bytes(bytes.fromhex(y), 'little')
         if num == 0:
